@@ -364,8 +364,8 @@ XDB = T(('ndim', 'i'), ('nactive', 'i'), ('nz', 'i'), ('nx', 'i'))
 DBGRID = T(('grid', Lst(T(('nx', 'i'), ('x0', 'd'), ('dx', 'd'), ('angle', 'd')))), ('db', DB))
 VDIR = T(('flagRegular', 'b'), ('npas', 'i'), ('optionCode', 'i'), ('tolCode', 'd'), ('dpas', 'd'), ('tolDist', 'd'), ('grincr', Lst('i')),
          ('tolAngle', 'd'), ('codir', Lst('d')), ('results', Lst(T(('sw', 'd'), ('hh', 'd'), ('gg', 'd')))))
-VARIO = T(('ndim', 'i'), ('nvar', 'i'), ('scale', 'd'), ('flagAsym', 'b'), ('variableNames', Lst('s')), ('vars', Lst(Lst('d'))), ('dirs', Lst(VDIR)))
-XVARIO = T(('calcul', 'i'), ('dates', Lst('d')), ('dirs', Lst(T(('bench', 'd'), ('cylRad', 'd'), ('idate', 'i'), ('breaks', Lst('d'))))))
+VARIO = T(('ndim', 'i'), ('nvar', 'i'), ('scale', 'd'), ('calcul', 'i'), ('variableNames', Lst('s')), ('vars', Lst(Lst('d'))), ('dirs', Lst(VDIR)))
+XVARIO = T(('flagAsym', 'b'), ('dates', Lst('d')), ('dirs', Lst(T(('bench', 'd'), ('cylRad', 'd'), ('idate', 'i'), ('breaks', Lst('d'))))))
 COVA = T(('type', 'i'), ('param', 'd'), ('ranges', Lst('d')), ('rotMat', Lst('d')), ('sill', Lst(Lst('d'))))
 MODEL = T(('ndim', 'i'), ('nvar', 'i'), ('field', 'd'), ('covs', Lst(COVA)), ('drifts', Lst('s')), ('means', Lst('d')), ('covar0', Lst(Lst('d'))))
 XMODEL = T(('~value', Lst('d')), ('~angles', Lst(Lst('d'))))
@@ -460,8 +460,8 @@ CLASSES = [
 BYID = {c.cid: c for c in CLASSES}
 
 def beh_key(cls, path, case):
-    if cls.name == 'AnamEmpirical': return 'AnamEmpirical:dilution-flags-not-saved'
-    if cls.name == 'MeshEStandard': return 'MeshEStandard:space-dimension-not-restored'
+    if cls.name == 'AnamEmpirical': return 'AnamEmpirical:field-never-written'
+    if cls.name == 'MeshEStandard': return 'MeshEStandard:space-dimension-not-restored'          # regression
     if cls.name in ('RuleShift', 'RuleShadow') and len(case[2][1] if cls.name == 'RuleShift' else case[2][3]) < 3: return 'RuleShift:shift-padded-to-3-components'
     return '%s:behaviour-%s-differs' % (cls.name, path.split('~')[-1].rstrip('#'))
 
@@ -469,46 +469,44 @@ def fail_key(cls, case, what):
     """key of a dump / reload failure or crash: the option combination that explains it when there is one"""
     if cls.name in ('Db', 'DbGrid'):
         cols = case[2][2] if cls.name == 'Db' else case[2][6]
-        if any(' ' in US(c[0]) for c in cols): return 'Db:column-name-with-blank'
-        if any(US(c[0]).startswith('#') for c in cols): return 'Db:column-name-starting-with-hash'
-    if cls.name == 'Vario' and case[2][2] in (1, 2, 9): return 'Vario:calcul-type-not-saved'
-    if cls.name == 'FracEnviron' and what == 'reload-fails': return 'FracEnviron:class-tag-with-blank'
-    if cls.name == 'NeighImage' and what == 'crash': return 'NeighImage:reload-writes-radius-out-of-bounds'
-    if cls.name == 'DbLine' and what == 'crash' and case[2][2] < 2: return 'DbLine:single-sample-lines-crash-on-reload'
+        if any(' ' in US(c[0]) or US(c[0]).startswith('#') for c in cols): return 'Db:column-name-needs-quoting'
+    if cls.name == 'Vario' and case[2][2] in (1, 2, 9): return 'Vario:calcul-type-not-saved'         # regression
+    if cls.name == 'FracEnviron' and what == 'reload-fails': return 'FracEnviron:class-tag-with-blank'   # regression
+    if cls.name == 'NeighImage' and what == 'crash': return 'NeighImage:reload-writes-radius-out-of-bounds'  # regression
+    if cls.name == 'DbLine' and case[2][2] < 2: return 'DbLine:line-of-one-sample-not-reloadable'
     return '%s:%s' % (what if what == 'crash' else cls.name, cls.name if what == 'crash' else what)
 
 # refined keys: (class, path) -> canonical key of a known asymmetry; default is '<Class>:<path>-not-preserved'
-def key_of(cls, path, a, b, case):
+# Keys.  Two families:
+#  - defects still in the tree (known findings), consolidated by root cause:  <Class>:field-never-written, ...
+#  - regression keys of defects that have been fixed: they fire again, under their old name, if the fix is reverted
+def key_of(cls, path, a, b, case, allpaths=()):
     p = path.rstrip('#')
-    if p.endswith('flagXvalid') or p.endswith('flagKFold') or p.endswith('useBallSearch') or p.endswith('ballLeafSize'):
-        return 'ANeigh:%s-not-saved' % p.split('.')[-1]
+    last = p.split('.')[-1]
+    if last in ('flagXvalid', 'flagKFold', 'useBallSearch', 'ballLeafSize'): return 'Neigh:field-never-written'
     if cls.name == 'NeighMoving':
-        if p == 'anisoCoeffs': return 'NeighMoving:aniso-coeffs-scaled-by-radius'
-        if p == 'flagRotation': return 'NeighMoving:rotation-lost'
-        if p == 'distCont': return 'NeighMoving:distCont-not-saved'
-    if cls.name == 'NeighBench' and p == 'width': return 'NeighBench:width-getter-stale-after-reload'
-    if cls.name == 'Table' and p in ('rowNames', 'colNames', 'title'): return 'Table:%s-not-saved' % p
+        if p == 'distCont': return 'Neigh:field-never-written'
+        if p == 'anisoCoeffs': return 'NeighMoving:aniso-coeffs-scaled-by-radius'            # regression
+        if p == 'flagRotation': return 'NeighMoving:rotation-lost'                            # regression
+    if cls.name == 'NeighBench' and p == 'width': return 'NeighBench:width-getter-stale-after-reload'   # regression
+    if cls.name == 'Table' and p in ('rowNames', 'colNames', 'title'): return 'Table:field-never-written'
     if cls.name == 'AnamHermite':
-        if p == 'psiHn': return 'AnamHermite:coefficients-scaled-twice-by-support-coefficient'
-        if p == 'flagBound': return 'AnamHermite:flagBound-not-saved'
-        if p in ('variance', 'mean') and a is not None and b is not None and abs(a - b) <= 1e-12 * max(abs(a), abs(b)): return 'AnamHermite:rewrite-differs'     # recomputed from the rounded coefficients
-        if p == 'variance' and case[2][2] != [] and undy(case[2][2]) < 1: return 'AnamHermite:coefficients-scaled-twice-by-support-coefficient'
+        if p == 'flagBound': return 'AnamHermite:field-never-written'
+        if p in ('variance', 'mean') and a is not None and b is not None and abs(a - b) <= 1e-12 * max(abs(a), abs(b)):
+            return 'AnamHermite:variance-recomputed-on-reload'
+        if p in ('psiHn', 'variance'): return 'AnamHermite:coefficients-scaled-twice-by-support-coefficient'   # regression
     if cls.name in ('Db', 'DbGrid'):
         rec = case[2]; cols = rec[2] if cls.name == 'Db' else rec[6]
         names = [US(c[0]) for c in cols]
-        if any(' ' in n for n in names): return 'Db:column-name-with-blank'
-        if any(n.startswith('#') for n in names): return 'Db:column-name-starting-with-hash'
-        if p.endswith('locators') and any(c[1] in (23, 24) for c in cols): return 'Db:locator-facies-gausfac-read-as-f-g'
-        if p.endswith('names'): return 'Db:name-collides-with-provisional-name'
+        if any(' ' in n or n.startswith('#') for n in names): return 'Db:column-name-needs-quoting'
+        if last == 'locators' and any(c[1] in (23, 24) for c in cols): return 'Db:locator-facies-gausfac-read-as-f-g'   # regression
+        if last == 'names': return 'Db:name-collides-with-provisional-name'                  # regression
     if cls.name == 'Vario':
-        if case[2][2] in (1, 2, 9): return 'Vario:calcul-type-not-saved'      # asymmetric calculation: everything after the first direction is misread
-        if p in ('flagAsym', 'calcul', 'dirs.results'): 
-            if case[2][2] in (1, 2, 9): return 'Vario:calcul-type-not-saved'
-        if p == 'calcul': return 'Vario:calcul-type-not-saved'
-        if p.startswith('dirs.results.'): return 'Vario:undefined-result-written-as-zero' if a is None else 'Vario:results-not-preserved'
-        if p in ('dirs.bench', 'dirs.cylRad', 'dirs.idate', 'dirs.breaks', 'dirs.flagRegular', 'dates'): return 'Vario:%s-not-saved' % p.split('.')[-1].replace('flagRegular', 'breaks')
+        if 'calcul' in allpaths or 'flagAsym' in allpaths: return 'Vario:calcul-type-not-saved'          # regression
+        if p.startswith('dirs.results.') and a is None: return 'Vario:undefined-result-written-as-zero'  # regression
+        if p in ('dirs.bench', 'dirs.cylRad', 'dirs.idate', 'dirs.breaks', 'dirs.flagRegular', 'dates'): return 'Vario:field-never-written'
     if cls.name == 'Model':
-        if p == 'means' and case[2][4]: return 'Model:means-not-saved-with-drift'
+        if p == 'means' and case[2][4]: return 'Model:field-never-written'
         if p == 'covs.rotMat' and any(cv[5] and len(set(map(tuple, cv[3]))) <= 1 for cv in case[2][3]): return 'Model:rotation-of-isotropic-structure-not-saved'
     return '%s:%s-not-preserved' % (cls.name, p)
 
@@ -660,14 +658,17 @@ def main_part(ctx, quick, rng, runner, exe, env):
         elif not okl: vio.append((fail_key(cls, c, 'reload-fails'), 'createFromNF fails on the file just written'))
         else:
             beh = []
-            for path, a, b in diffs(cls.G, G0, G1, undy, undy, same15) + diffs(cls.X, X0, X1, undy, undy, same15):
+            dl = diffs(cls.G, G0, G1, undy, undy, same15) + diffs(cls.X, X0, X1, undy, undy, same15)
+            allpaths = set(pth.rstrip('#') for pth, _, _ in dl)
+            for path, a, b in dl:
                 text = '%s: %s is %r before saving and %r after reloading' % (cls.name, path.replace('~', ''), a, b)
                 if '~' in path: beh.append((beh_key(cls, path, c), text)); continue
-                k = key_of(cls, path, a, b, c)
+                k = key_of(cls, path, a, b, c, allpaths)
                 if k: vio.append((k, text))
             if not vio: vio += beh[:1]      # a derived quantity differs although every getter agrees
             if fileB != fileA and not vio:
-                vio.append(('%s:rewrite-differs' % cls.name, 'the file written by the reloaded object differs from the first one'))
+                vio.append(('AnamHermite:variance-recomputed-on-reload' if cls.name == 'AnamHermite' else '%s:rewrite-differs' % cls.name,
+                            'the file written by the reloaded object differs from the first one'))
         # model predictions
         pred = None
         if i in written:
@@ -764,7 +765,10 @@ def grid_formats(ctx, quick, rng, exe, env):
     F = Fraction
     cases = [[4, 1, [2, 2, 1], [D(F(1)), D(F(1)), D(F(1))], [D(F(0)), D(F(0)), D(F(0))], [D(F(0))] * 3, [[D(F(1)), D(F(3)), D(F(5)), D(F(7))]]],
              [4, 1, [2, 2, 2], [D(F(1)), D(F(1)), D(F(5))], [D(F(0)), D(F(0)), D(F(30))], [D(F(0))] * 3, [[D(F(k)) for k in (1, 2, 4, 5, 6, 7, 8, 9)]]],
-             [4, 0, [1, 3], [D(F(1)), D(F(2))], [D(F(10)), D(F(20))], [D(F(0))] * 2, [[D(F(1)), D(F(2)), D(F(4))]]]] + cases
+             [4, 0, [1, 3], [D(F(1)), D(F(2))], [D(F(10)), D(F(20))], [D(F(0))] * 2, [[D(F(1)), D(F(2)), D(F(4))]]],
+             [4, 1, [2, 2], [D(F(1)), D(F(1))], [D(F(0)), D(F(0))], [D(F(0))] * 2, [[D(F(1)), D(F(2)), D(F(4)), D(F(5))]]],
+             [4, 1, [2, 2, 1], [D(F(1)), D(F(1)), D(F(1))], [D(F(0)), D(F(0)), D(F(0))], [D(F(0))] * 3, [[D(F(1)), D(F(2)), D(F(4)), D(F(5))], [D(F(6)), D(F(7)), D(F(8)), D(F(9))]]],
+             [4, 0, [2, 2], [D(F(1)), D(F(2))], [D(F(10)), D(F(20))], [D(F(0))] * 2, [[D(F(1)), D(F(2)), D(F(4)), D(F(5))], [D(F(6)), D(F(7)), D(F(8)), D(F(9))]]]] + cases
     res = run_impl_all(ctx, exe, 'p5', cases, env)
     def close(a, b, tol):
         if a is None or b is None: return a is None and b is None
@@ -800,8 +804,8 @@ def grid_formats(ctx, quick, rng, exe, env):
         if fmt == 1:
             if 'values' in kinds and len(cols) > 1: key = 'GridIfpEn:several-variables-mixed'
             elif 'values' in kinds and any(v == 3 for col in cols for v in col): key = 'GridIfpEn:value-3-read-as-undefined'
-            elif 'dimension' in kinds and len(nx) == 2 and kinds == ['dimension']: key = 'GridIfpEn:2d-grid-read-as-3d'
-            elif ('mesh' in kinds or 'origin' in kinds) and len(nx) == 3: key = 'GridIfpEn:vertical-origin-and-mesh-not-written'
+            elif 'dimension' in kinds and len(nx) == 2 and kinds == ['dimension']: key = 'GridIfpEn:vertical-geometry-not-written'
+            elif ('mesh' in kinds or 'origin' in kinds) and len(nx) == 3: key = 'GridIfpEn:vertical-geometry-not-written'
             else: key = 'GridIfpEn:' + kinds[-1]
         else:
             key = 'GridZycor:' + ('single-node-direction' if 1 in nx else 'only-first-variable-written' if 'variables' in kinds else kinds[-1])
